@@ -706,8 +706,14 @@ class Interp:
         if args and isinstance(args[0], tuple) and args[0] and args[0][0] == 'rsetp':
             fpath = args[0][1]
             fty = self.rset_field_type(fpath)
+            # a set with a separate logical record count (a usize field next to the offsets vector, as
+            # in FASTA: the vector keeps its old entries and is overwritten) : the physical vector
+            # says nothing about the number of records of this batch
+            logical = self.rset_has_count_field()
             if c.name == 'clear' and 'BufferPosition' in fty:
                 heap['setc'] = 0
+                if logical:
+                    heap['vecn'] = 0
                 heap['dirty'] = True
                 finish(UNIT, heap)
                 return outs
@@ -715,20 +721,27 @@ class Interp:
                 if heap.get('setc') == 'old':
                     self.violate('FSM-S4', body, t, 'push-before-old-batch-cleared',
                                  'a record is pushed into the set before the offsets of the previous batch were cleared (the set would contain old records too)', heap)
-                heap['setc'] = 1
+                if logical:
+                    heap['vecn'] = 1
+                else:
+                    heap['setc'] = 1
+                    heap['pushed'] = True
                 heap['dirty'] = True
-                heap['pushed'] = True
                 finish(UNIT, heap)
                 return outs
             if c.name in ('is_empty',) and 'BufferPosition' in fty:
-                if heap['setc'] in (0, 1):
-                    finish(B(heap['setc'] == 0), heap)
+                n = heap.get('vecn', 'old') if logical else heap['setc']
+                if logical and n == 'old' and heap['setc'] == 1:
+                    n = 1   # the vector holds at least the records counted in this batch
+                if n in (0, 1):
+                    finish(B(n == 0), heap)
                 else:
                     finish(B(True), heap.copy())
                     finish(B(False), heap.copy())
                 return outs
             if c.name == 'len' and 'BufferPosition' in fty:
-                finish(('cnt', heap['setc']), heap)
+                n = heap.get('vecn', 'old') if logical else heap['setc']
+                finish(('cnt', n) if n in (0, 1) or not logical else TOP, heap)
                 return outs
             if c.name in ('extend', 'extend_from_slice') and fty.replace(' ', '') == 'std::vec::Vec<u8>':
                 src = args[1] if len(args) > 1 else TOP
@@ -816,6 +829,10 @@ class Interp:
                 if fd['name'] == fpath[0]:
                     return fd['ty']
         return ''
+
+    def rset_has_count_field(self):
+        adt = self.prog.adts.get('%s::RecordSet' % self.fmt)
+        return bool(adt) and any(fd['ty'].strip() == 'usize' for fd in adt['variants'][0]['fields'])
 
     def path_of(self, parent, item):
         out = []
